@@ -113,8 +113,11 @@ where
             if *status == DownlinkStatus::Linked {
                 keys.insert(key.clone());
                 if let Some(old_link) = ownership.remove(&key) {
-                    if let Some(l) = links.get_mut(&old_link) {
-                        l.keys.remove(&key);
+                    // The key only leaves the key set of its previous owner if that is another link.
+                    if old_link != link {
+                        if let Some(l) = links.get_mut(&old_link) {
+                            l.keys.remove(&key);
+                        }
                     }
                 }
                 ownership.insert(key, link);
